@@ -261,3 +261,9 @@ pub fn c11_tilt_b(tilt: f32) -> C11Tilt {
         C11Tilt::SIDE
     }
 }
+
+// ---- C12: the "no sample points" exit is missing (0/0 = NaN)
+pub fn c12_sunlit(ray_origins: &[f32], hits: usize) -> f32 {
+    let num_intersects = hits;
+    1.0 - num_intersects as f32 / ray_origins.len() as f32
+}
